@@ -382,3 +382,36 @@ func contract_newFieldValidationInfo(mi *MessageInfo, si structInfo, fd protoref
 		1 <= mi.numRequiredFields && vi.requiredBit == uint64(1)<<(mi.numRequiredFields-1)))
 	return
 }
+
+// ---------------------------------------------------------------- the validator's required-field accounting (C06, C10)
+
+// specRequiredWire: a required field counts as present only when it arrives with the wire type of
+// its kind (encoding document: message and string/bytes are length-delimited, groups start with a
+// start-group tag, the numeric kinds are varint / fixed32 / fixed64). With any other wire type the
+// decoder stores the bytes as an unknown field and the required field stays unset.
+func specRequiredWire(typ validationType, wtyp protowire.Type) bool {
+	switch typ {
+	case validationTypeVarint:
+		return wtyp == protowire.VarintType
+	case validationTypeFixed32:
+		return wtyp == protowire.Fixed32Type
+	case validationTypeFixed64:
+		return wtyp == protowire.Fixed64Type
+	case validationTypeBytes, validationTypeUTF8String, validationTypeMessage:
+		return wtyp == protowire.BytesType
+	case validationTypeGroup:
+		return wtyp == protowire.StartGroupType
+	}
+	return false
+}
+
+// The validator marks a required field as seen only for the wire type of its kind.
+//
+// @ props C06 C10
+// @ mode int
+// @ nopanic
+// @ site st.requiredMask |= vi.requiredBit: specRequiredWire(vi.typ, wtyp)
+func contract_MessageInfo_validate(mi *MessageInfo, b []byte, groupTag protowire.Number, opts unmarshalOptions) (out unmarshalOutput, result ValidationStatus) {
+	modifiesAll()
+	return
+}
